@@ -453,6 +453,11 @@ func (i *IfUnless) Evaluation(
 	t *base.T,
 ) (err error) {
 
+	// the evaluator is a shared singleton and conditionals nest: keep the enclosing
+	// conditional's narrowing state and put it back when this one is done
+	saved := *i
+	defer func() { *i = saved }()
+
 	// clear
 	i.originalTs = make(map[string][]base.T)
 	i.narrowTs = make(map[string][]base.T)
